@@ -230,7 +230,7 @@ C05 = simple_check("C05", "c05", "model_checking",
     trusted=["mc/wire in-memory HTTP exchange (net/http request/response serialisation and parsing)", "refrouter decision table in harness/c05"])
 
 _C15_url = simple_check("C15", "c15", "model_checking",
-    rule="exhaustive product of resolver base URLs (scheme/host x context paths of 0-3 segments over {root, root+suffix, prefix-of-root, other} x trailing slash) x encoded resource paths (20 key contents incl. %XX, dot segments, ;, ?, #, reserved characters, at 1 and 2 key positions) x queries x {NewGetRequest, NewJsonRequest}; the URL of the built *http.Request (scheme, host, EscapedPath, RawQuery, String() re-parse) and the request target written to the wire are compared with the reference construction; states = bases, transitions = request constructions",
+    rule="exhaustive product of resolver base URLs (scheme/host x context paths of 0-3 segments over {root, root+suffix, prefix-of-root, other, two segments with percent-escapes} x trailing slash) x encoded resource paths (20 key contents incl. %XX, dot segments, ;, ?, #, reserved characters, at 1 and 2 key positions) x queries x {NewGetRequest, NewJsonRequest}; the URL of the built *http.Request (scheme, host, EscapedPath, RawQuery, String() re-parse) and the request target written to the wire are compared with the reference construction; states = bases, transitions = request constructions",
     assumptions=["contexts holding the root resource name as a complete non-final segment are don't-care, as the property says"],
     trusted=["refurl in harness/c15", "net/url parsing"])
 
